@@ -104,6 +104,7 @@ def run_scenario(prop, scn, seed, plans=None, want_sample=False):
         "sim_seconds": run.sim_seconds,
         "wall": REAL_TIME() - t0,
         "extra_evals": facts.get("evaluations", 0),
+        "enum_info": facts.get("enum_info"),
     }
     if V or want_sample:
         res["scn"] = scn
@@ -367,6 +368,10 @@ def check_main(a):
                     herrors.append("simulated outcome differs from real processes: %s" % (m,))
             if prop == "C09" and tier != "quick":
                 runs, hangs, fails = selftest.real_soak()
+                runs2, hangs2, fails2 = selftest.real_soak(runs_per_proc=40, sequential=True)
+                selftests["real_process_soak_parallel_runs"] = runs
+                selftests["real_process_soak_sequential_runs"] = runs2
+                runs, hangs, fails = runs + runs2, hangs + hangs2, fails + fails2
                 selftests["real_process_soak_runs"] = runs
                 selftests["real_process_soak_hangs"] = hangs
                 selftests["real_process_soak_failures"] = fails
@@ -501,6 +506,16 @@ def write_evidence(prop, P, tier, seed, all_res, results, reported, n_known, wal
         "wall_s": round(wall, 2),
         "violations": len(reported),
     }
+    enums = [d["enum_info"] for d in all_res if d.get("enum_info")]
+    if enums:
+        ev["coverage"]["fault_enumeration"] = {
+            "scenarios_with_enumeration": len(enums),
+            "injection_points_numbered": sum(e.get("total", 0) for e in enums),
+            "injection_points_tried": sum(e.get("tried", 0) for e in enums),
+            "scenarios_enumerated_exhaustively": sum(1 for e in enums if e.get("exhaustive")),
+            "by_operation": {k: sum(1 for e in enums if e.get("op") == k) for k in sorted({e.get("op") for e in enums})},
+        }
+        ev["coverage"]["exhaustive"] = False
     extra = getattr(P, "evidence_extra", None)
     if extra:
         ev["coverage"].update(extra(all_res))
